@@ -9,6 +9,7 @@ pub mod c04;
 pub mod c05;
 pub mod c06;
 pub mod c07;
+pub mod c08;
 pub mod c09;
 pub mod c10;
 pub mod c11;
@@ -33,6 +34,7 @@ pub fn dispatch(args: &Args) -> i32 {
         "C05" => c05::run(args),
         "C06" => c06::run(args),
         "C07" => c07::run(args),
+        "C08" => c08::run(args),
         "C09" => c09::run(args),
         "C10" => c10::run(args),
         "C11" => c11::run(args),
